@@ -75,7 +75,7 @@ def chain_carried_only(i, p, outer, c):
 CHAINS = dict(direct=chain_direct, affine=chain_affine, shared=chain_shared, carried_only=chain_carried_only)
 
 LOOP_SHAPES = ([dict(chain=ch, extra=ex, variant="ok") for ch in ("direct", "affine", "shared", "carried_only") for ex in ("none", "second_setup")]
-               + [dict(chain="affine", extra="none", variant=v) for v in ("impure_input", "launch_before", "no_launch", "launch_in_nested", "not_loop_carried", "no_in_state")])
+               + [dict(chain="affine", extra="none", variant=v) for v in ("impure_input", "launch_before", "nested_launch_before", "no_launch", "launch_in_nested", "not_loop_carried", "no_in_state")])
 
 
 def build_loop(sh, sym):
@@ -96,6 +96,16 @@ def build_loop(sh, sym):
     pre = []
     if variant == "launch_before":
         pre = [accfg.LaunchOp([], [], l0)]
+    extra_uses = []
+    if variant == "nested_launch_before":
+        # a launch on the loop-carried state, guarded by a region op (e.g. scf.if), in front of the setup
+        guarded = accfg.LaunchOp([], [], l0)
+        wrap0 = BodyOp([], 0, False)
+        r0 = Region([Block([guarded])])
+        r0.parent = wrap0
+        wrap0.regions = [r0]
+        pre = [wrap0]
+        extra_uses = [guarded]
     in_state = l0
     if variant == "not_loop_carried":
         other = accfg.SetupOp([], [], "acc", l0)
@@ -135,7 +145,7 @@ def build_loop(sh, sym):
     loop = scf.ForOp(lbv, ubv, stv, [s0.out_state, p0v], body)
     top = Block([s0, loop])
     Region([top])
-    use_all([s0, loop] + all_ops)
+    use_all([s0, loop] + all_ops + [l for l in launches if not any(l is o for o in all_ops)] + extra_uses)  # (a launch nested in a region op is a use as well)
     return dict(loop=loop, setup=setup, s0=s0, body=body, ops=ops, vals=vals, launches=launches, y=y, pn=pn,
                 sym=dict(lb=lb, st=st, p0=p0, I=I, P=P, d=d), lbv=lbv, p0v=p0v, all_ops=all_ops)
 
